@@ -80,3 +80,57 @@ Definition c_sweep (now : Z) (m : cmetric) : cmetric :=
 Definition c_gc (limit : nat) (now : Z) (m : cmetric) : cmetric :=
   c_sweep now (c_limit_phase limit m).
 End ConcreteGc.
+
+(* ---------------- histories: several GC passes ---------------- *)
+(* The life of one metric: operations of the VM (and of the exporters), a GC
+   pass at some time, more operations on the same metric, another pass, ...
+   The limit is the metric's Limit field (fixed when the program is compiled). *)
+Inductive event :=
+| EOps (ops : list op)          (* any operations between two passes *)
+| EGc (now : Z).                (* one pass of Store.Gc over this metric at time [now] *)
+
+(* what is observable of an event: the results of the operations, or the
+   metric's listing right after the pass *)
+Inductive hobs :=
+| HOuts (l : list out)
+| HAfter (l : list (tuple * N * cell)).
+
+Definition listing (m : cmetric) : list (tuple * N * cell) :=
+  map (fun lv => (lv_labels lv, lv_ptr lv, lv_cell lv)) (m_slice m).
+
+Section ConcreteHist.
+Variable enc : tuple -> bytes.
+
+Definition h_step (limit : nat) (m : cmetric) (ev : event) : cmetric * hobs :=
+  match ev with
+  | EOps ops => let (m', xs) := c_run enc m ops in (m', HOuts xs)
+  | EGc now => let m' := c_gc enc limit now m in (m', HAfter (listing m'))
+  end.
+
+Fixpoint h_run (limit : nat) (m : cmetric) (evs : list event) : cmetric * list hobs :=
+  match evs with
+  | [] => (m, [])
+  | ev :: r => let (m1, x) := h_step limit m ev in
+               let (m2, xs) := h_run limit m1 r in (m2, x :: xs)
+  end.
+
+Definition h_state (limit : nat) (m : cmetric) (evs : list event) : cmetric :=
+  fst (h_run limit m evs).
+End ConcreteHist.
+
+(* the same history on the insertion-ordered map: a pass is [gc limit now] *)
+Definition a_listing (a : amap) : list (tuple * N * cell) :=
+  map (fun '(k, (p, c)) => (k, p, c)) (a_items a).
+
+Definition ah_step (limit : nat) (a : amap) (ev : event) : amap * hobs :=
+  match ev with
+  | EOps ops => let (a', xs) := a_run a ops in (a', HOuts xs)
+  | EGc now => let a' := with_items a (gc limit now (a_items a)) in (a', HAfter (a_listing a'))
+  end.
+
+Fixpoint ah_run (limit : nat) (a : amap) (evs : list event) : amap * list hobs :=
+  match evs with
+  | [] => (a, [])
+  | ev :: r => let (a1, x) := ah_step limit a ev in
+               let (a2, xs) := ah_run limit a1 r in (a2, x :: xs)
+  end.
